@@ -199,6 +199,38 @@ CLAIMED = {
              "measured (quadrature / dense grid), not proved. Trusted: Lean kernel + standard axioms; scipy quad.",
         technique="Lean 4 proof (binomial theorem, finite-sum algebra) + differential correspondence + quadrature oracle",
         design="§3 C10"),
+    "C11": dict(
+        text="Lean 4 theorems over the reals: StepAnalytical's and GaussianAnalytical's `abel` is the Abel integral of their `func` "
+             "as functions of x, for every r1 < r2, A0, sigma (Mathlib measure theory: the shell lemma and the Gaussian integral); "
+             "linear scaling of Abel pairs. Tie: the classes' arrays vs the closed forms the theorems mention, on random grids "
+             "(symmetric or not, odd/even n). Oracle: scipy line-of-sight quadrature of func vs abel for every shipped pair — "
+             "Step, Gaussian, Polynomial wrappers, TransformPair profiles 1-7, SampleImage names x sizes x options.",
+        note="Partial: profiles 1-7 and sample images are decided by quadrature, not by theorem (closed forms with many special "
+             "functions). Trusted: Lean kernel + standard axioms; scipy quad as the independent integrator.",
+        technique="Lean 4 proof (Mathlib interval/set integrals) + differential correspondence + quadrature oracle",
+        design="§3 C11"),
+    "C01": dict(
+        text="Lean 4 theorems: for every exact inverse pair (T, A) the reconstruction error is at most the row-sum norm of T times "
+             "the consistency error of the data (stability reduction), and daun degree 0 / onion peeling invert the true Abel "
+             "projection of every piecewise-constant source exactly at every size (through C09's operator = Abel integral theorems). "
+             "Tie: Lean operator models vs the implementation's arrays. Oracle independent of PyAbel: closed-form Abel pairs and "
+             "Gauss–Legendre line-of-sight projections for every method x documented option x family x size x dr x rows; errors must "
+             "stay within 2x the frozen pinned-tree envelope, below half the peak, and not grow under refinement.",
+        note="Partial: the numerical envelope of each method is measured, not proved (floating point + discretisation); methods "
+             "without a Lean operator model (hansenlaw, direct, onion_bordas, basex, linbasex, rbasex) are covered by the oracle only. "
+             "Trusted: Lean kernel + standard axioms; the frozen baseline; numpy Gauss–Legendre nodes.",
+        technique="Lean 4 proof (finite-sum bounds; Abel integral of shells) + operator correspondence + closed-form/quadrature oracle",
+        design="§3 C01"),
+    "C02": dict(
+        text="Lean 4 theorems over the reals: the a-priori bound |Abel f x| ≤ 2M√(R²−x²), the exact dr scaling of the projection of a "
+             "stretched source (the intensity scale set by the pixel size), and the chord bound for every entry of the degree-0 "
+             "forward operator; with C09 the daun / onion-peeling forward operators are the Abel integrals of their basis functions. "
+             "Tie: Lean operator models vs implementation arrays. Oracle: as C01 for direction='forward' (basex, daun, direct incl. "
+             "explicit r grids, hansenlaw, rbasex incl. explicit origin) at dr 1 and 0.5.",
+        note="Partial: numerical envelopes measured (2x frozen pinned-tree error), not proved; hansenlaw/direct/basex/rbasex forward "
+             "operators are not modelled in Lean. Trusted: Lean kernel + standard axioms; the frozen baseline; numpy Gauss–Legendre.",
+        technique="Lean 4 proof (Mathlib set integrals, change of variables) + operator correspondence + closed-form/quadrature oracle",
+        design="§3 C02"),
 }
 
 NOT_YET = "check not built yet in this session (planned, see DESIGN.md §3); not claimed until its theorems and correspondence run"
